@@ -252,7 +252,11 @@ fn observe<S>(
             true
         }
         Err(msg) => {
-            if msg.contains("Out of instances") || !info.problems.is_empty() && info.problems.iter().any(|p| p.contains("exhausted")) {
+            // a panic always leaves the log unbalanced (unwinding drops the borrowed buffers); what counts here is
+            // pool misbehaviour seen BEFORE the panic: exhaustion, or a buffer handed back not clean (stale data —
+            // typically the cause of a later library assertion)
+            let hard = info.problems.iter().any(|p| p.contains("exhausted") || p.contains("not clean") || p.contains("unknown pooled type"));
+            if msg.contains("Out of instances") || hard {
                 emit(
                     nt,
                     &format!("{} {}", input_head, label),
@@ -795,6 +799,10 @@ fn build_generic(gm: &GModel, seed: u64, loops: bool, hb: bool) -> Option<GQ> {
     for (mat, vars, diag) in &gm.terms {
         let r = if *diag {
             q.make_diagonal_interaction_and_offset(mat.clone(), vars.clone())
+        } else if mat.iter().all(|x| *x == mat[0]) {
+            // constant single-site term: keep it constant (the offset variant would subtract the diagonal
+            // minimum and turn it into a non-constant matrix, i.e. no cluster edges)
+            q.make_interaction(mat.clone(), vars.clone())
         } else {
             q.make_interaction_and_offset(mat.clone(), vars.clone())
         };
@@ -949,15 +957,20 @@ fn large_scenarios(out: &mut Out, gen: &mut SplitMix64, thorough: bool) {
         let tag = format!("large:ising:ring{}:G1d1:h{}:b{}:hb{}:rvb{}:c{}:s{}", n, show_f(h), show_f(beta), hb as u8, rvb as u8, cutoff, seed);
         let mut g = build_ising(&lat, &js, 1.0, h, cutoff, seed, hb, rvb);
         out.count("scen_large_ising");
+        let mut alive = true;
         for ci in 0..steps {
             let lab = |s: &str| format!("{}:call{}:{}", tag, ci, s);
             if !observe(out, "istep", &lab("timestep"), &mut g, snap_ig, |g| {
                 g.timestep(beta);
             }) {
+                alive = false;
                 break;
             }
             let e = out.stats.entry("large_max_oplist_n".to_string()).or_insert(0);
             *e = (*e).max(g.get_n() as u64);
+        }
+        if !alive {
+            continue;
         }
         if g.get_n() < 4200 {
             // the point of the run is lost: say so (shows up in the evidence, not an alarm)
@@ -1004,15 +1017,20 @@ fn large_scenarios(out: &mut Out, gen: &mut SplitMix64, thorough: bool) {
         };
         q.set_cutoff((3.0 * beta * n as f64) as usize);
         out.count("scen_large_generic");
+        let mut alive = true;
         for ci in 0..steps {
             let lab = |s: &str| format!("{}:call{}:{}", tag, ci, s);
             if !observe(out, "gstep", &lab("timestep"), &mut q, snap_gq, |q| {
                 q.timestep(beta);
             }) {
+                alive = false;
                 break;
             }
-            let e = out.stats.entry("large_max_oplist_n".to_string()).or_insert(0);
+            let e = out.stats.entry("large_max_oplist_n_generic".to_string()).or_insert(0);
             *e = (*e).max(q.get_n() as u64);
+        }
+        if !alive {
+            continue;
         }
         let lab = |s: &str| format!("{}:{}", tag, s);
         let _ = observe(out, "loop", &lab("loop_update"), &mut q, snap_gq, |q| q.loop_update());
@@ -1271,9 +1289,12 @@ fn soak(out: &mut Out, gen: &mut SplitMix64, thorough: bool) {
                 );
             }
             Err(msg) => {
-                for (ty, d, _, _) in verif_log::take() {
+                for (ty, d, clean, _) in verif_log::take() {
                     if d == 0 {
                         problems.push(format!("pool exhausted for {}", ty));
+                    }
+                    if d == -1 && !clean && problems.len() < 4 {
+                        problems.push(format!("returned {} not clean (in the call that panicked)", ty));
                     }
                 }
                 if msg.contains("Out of instances") || !problems.is_empty() {
